@@ -52,8 +52,9 @@ def taggedGetN (bs : List Nat) (n : Int) : String :=
   | .short => "r=0 v=-"
   | .fault => "fault"
 
-def taggedAdd (v : Nat) (amount : Int) (force : Bool) : String :=
-  let orig := Tagged.enc v
+def taggedAdd (v : Nat) (amount : Int) (force : Bool) (slotw : Nat) : String :=
+  let legal := slotw = Tagged.len v ∨ (4 ≤ slotw ∧ slotw ≤ 9 ∧ Tagged.len v ≤ slotw)
+  let orig := if slotw ≠ 0 ∧ legal then Tagged.encFixed v slotw else Tagged.enc v
   let (r, wr) := Tagged.add v orig.length amount force
   -- memory after the call: written bytes overlay the old slot (guard bytes 0xC3 beyond)
   let mem0 := orig ++ List.replicate 16 0xC3
@@ -208,7 +209,7 @@ def scalarOp (t : Array String) : Option String :=
   | "tagged.all" => some (taggedAll (argH t 1))
   | "tagged.fixed" => some (taggedFixed (argH t 1) (argH t 2))
   | "tagged.getn" => some (taggedGetN (parseBytes (argS t 1)) (argI t 2))
-  | "tagged.add" => some (taggedAdd (argH t 1) (argI t 2) (argH t 3 != 0))
+  | "tagged.add" => some (taggedAdd (argH t 1) (argI t 2) (argH t 3 != 0) (if t.size > 4 then argH t 4 else 0))
   | "tagged.dec" => some (taggedDec (parseBytes (argS t 1)))
   | "tagged.cmp" => some (taggedCmp (argH t 1) (argH t 2))
   | "tagged.cmpt" =>
